@@ -177,7 +177,9 @@ func main() {
 						}
 						for _, n := range p.Names {
 							if n.Name == "_" {
-								hookable = false
+								// a blank parameter cannot be referenced: the hook sees nil in its place
+								args = append(args, "nil")
+								continue
 							}
 							args = append(args, n.Name)
 						}
